@@ -103,7 +103,7 @@ func (s *tendermintWALStore[V, H, A]) applyEncodedRecord(
 	switch envelope.Kind {
 	case walRecordEntry:
 		entry := envelope.entry()
-		if entry.GetHeight() <= s.prunedUpToHeight {
+		if entry.GetHeight() < s.firstLiveHeight {
 			return nil
 		}
 		s.addLiveEntry(walNum, entry)
